@@ -280,13 +280,15 @@ prop("C16", "exploration",
      "for that seed) with the chain's value, height, coinbase flag, maturity and account, per-account spendable/immature must equal the values computed from "
      "chain truth, the total spendable must equal the original wallet's (when it holds no reservations), and a second scan must change nothing; (b) the "
      "original wallet with injected divergences (deleted output, Unspent->Spent, Unspent->Locked with a fabricated pending entry, stale Unconfirmed output) "
-     "scanned with/without delete_unconfirmed: same comparison, no pending records left with delete_unconfirmed, second scan changes nothing. "
+     "scanned with/without delete_unconfirmed: same comparison, no pending records left with delete_unconfirmed, second scan changes nothing; "
+     "(c) a transaction broadcast, then cancelled by the sender, then mined: scan of both wallets, same comparison; (d) last, the top 2-5 blocks replaced "
+     "by a longer fork of neutral blocks: scan of both wallets, same comparison over every account. "
      "distinct = (kind, wallet, outputs in UTXO, page size, start / injected set); non-trivial = all",
      [{"name": "c16", "cmd": "c16", "shards": {"quick": 14, "thorough": 16}, "crash_is_violation": True}],
      {"quick": 90, "thorough": 600},
      ["balances are read after a refresh of the account (the figures are relative to the account's confirmed height)",
       "mid-chain start heights are not judged for completeness"],
-     required_hist=["restore:matches-chain-truth", "restore:second-scan-no-change", "repair:matches-chain-truth", "repair:second-scan-no-change", "restore:spendable-equals-original"])
+     required_hist=["restore:matches-chain-truth", "restore:second-scan-no-change", "repair:matches-chain-truth", "repair:second-scan-no-change", "restore:spendable-equals-original", "repair-after-cancel-of-broadcast:matches-chain-truth", "repair-after-reorg:matches-chain-truth"])
 
 prop("C18", "exploration",
      "a payment from wallet 0 to wallet 1 is mined (0-2 earlier and later blocks mined by the recipient, so that its coinbases can be orphaned) and confirmed; then "
